@@ -36,13 +36,13 @@ def chunk_wire(rnd, body, style):
             n = rnd.randint(1, 9); parts.append(body[i:i + n]); i += n
     w = b""
     for k, p in enumerate(parts):
-        ext = b";ext=1" if style == "ext" and k == 0 else b""
+        ext = b";ext=1" if style == "ext" and k == 0 else (b";name=value-of-the-extension", b";q=\"quoted, long\"", b";x")[k % 3] if style == "lext" else b""
         size = (b"%X" if k % 2 else b"%x") % len(p)
         if style == "ext" and k == 1:
             size = b"000" + size
         w += size + ext + b"\r\n" + p + b"\r\n"
-    w += b"0\r\n"
-    trailer = b"X-T: 1\r\n" if style in ("ext", "rand") else b""
+    w += b"0;final=yes-it-is-final\r\n" if style == "lext" else b"0\r\n"
+    trailer = b"X-T: 1\r\n" if style in ("ext", "rand", "lext") else b""
     return w + trailer + b"\r\n", len(w)
 
 
@@ -54,7 +54,7 @@ def scenarios(ctx):
     nxt_req = b"GET /next HTTP/1.1\r\n" + H + b"\r\n"
     nxt_res = b"HTTP/1.1 200 OK\r\nContent-Length: 2\r\n\r\nok"
     for bi, body in enumerate(bodies(rnd, q)):
-        for fr in ("cl", "one", "bytes", "ext", "rand", "close"):
+        for fr in ("cl", "one", "bytes", "ext", "lext", "rand", "close"):
             for side in ("q", "s"):
                 if fr == "close" and side == "q":
                     continue
